@@ -33,7 +33,7 @@ ASSUMPTIONS = [
     "float agreement is judged to 1e-9 relative + 1e-12 absolute; counts are exact",
 ]
 REQUIRED = {"all": ["single_residues", "residue_pairs", "random_sequences", "whitespace_presentations",
-                    "ppii_scale_switches", "longer_than_1000", "salted_objects", "sweep_sequences", "thread_rounds"]}
+                    "ppii_scale_switches", "longer_than_1000", "salted_objects", "sweep_sequences", "thread_rounds", "objects_by_other_routes", "shuffled_copies_observed"]}
 NRANDOM = {"quick": 4000, "thorough": 30000}
 
 
@@ -109,8 +109,18 @@ def calls(obj):
 
 
 def observe(S, pres, order_seed, rep):
-    obj = S["SP"](pres)
     r = random.Random(order_seed)
+    word0 = "".join(ch for ch in pres.upper() if not ch.isspace())
+    if pres == word0 and len(word0) <= 400 and r.random() < 0.3:
+        # the object reaches the user by another route: a file, a pickle, a copy, a handle around a backend object built
+        # from mixed-case text - and, half of the time, as a shuffled copy of such an object (same composition)
+        obj = SALT.make_object(S, word0, r, rep)
+        rep.cnt("objects_by_other_routes")
+        if r.random() < 0.3:
+            obj = obj.get_shuffled_sequence()
+            rep.cnt("shuffled_copies_observed")
+    else:
+        obj = S["SP"](pres)
     if r.random() < 0.35:
         word_ = "".join(ch for ch in pres.upper() if not ch.isspace())
         SALT.salt(S, obj, word_, r, rep, cheap=len(word_) > 150)
